@@ -353,42 +353,15 @@ func cmdCheck(args []string) int {
 	known := loadKnown()
 	var results []*harnessResult
 	broken := false
-	for _, h := range hs {
-		r, err := explore(ld, h, *tier, *workers, known, *prop, *verbose)
-		if err != nil {
-			fmt.Println("CHECK-ERROR", h.Func, err)
-			broken = true
-			continue
-		}
-		results = append(results, r)
-		fmt.Printf("harness %s: paths=%d (%v) decided=%d queries sat=%d unsat=%d unknown=%d solver=%.1fs wall=%.1fs candidates=%d\n",
-			h.Func, r.stats.Paths, r.stats.PathKinds, r.decided, r.queries.Sat, r.queries.Unsat, r.queries.Unknown, r.solverTime.Seconds(), r.wall.Seconds(), len(r.violations))
-		if len(r.engineErrs) > 0 {
-			broken = true
-			for _, e := range r.engineErrs {
-				fmt.Println("ENGINE-ERROR", h.Func, e)
-			}
-		}
-		if *verbose {
-			keys := make([]string, 0, len(r.notes))
-			for k := range r.notes {
-				keys = append(keys, k)
-			}
-			sort.Strings(keys)
-			for _, k := range keys {
-				fmt.Printf("  note x%d: %s\n", r.notes[k], k)
-			}
-		}
-	}
 	// native replay of candidates and cover witnesses
 	rp := newReplayer(dirs, funcsByDir, *prop)
 	defer rp.close()
 	confirmed, spurious, knownSeen, validated := 0, 0, map[string]string{}, 0
 	var vioLines []string
 	incomplete := []string{}
-	for _, r := range results {
+	post := func(r *harnessResult) {
 		for k, n := range r.notes {
-			if strings.HasPrefix(k, "unsupported") || strings.HasPrefix(k, "unwind") || strings.HasPrefix(k, "unknown") || strings.HasPrefix(k, "depth") || strings.HasPrefix(k, "steplimit") {
+			if strings.HasPrefix(k, "unsupported") || strings.HasPrefix(k, "unwind") || strings.HasPrefix(k, "unknown") || strings.HasPrefix(k, "depth") || strings.HasPrefix(k, "steplimit") || strings.HasPrefix(k, "timeout") {
 				incomplete = append(incomplete, fmt.Sprintf("%s: %s (x%d)", r.cfg.Func, k, n))
 			}
 		}
@@ -399,7 +372,7 @@ func cmdCheck(args []string) int {
 			for _, v := range r.violations {
 				fmt.Printf("CANDIDATE %s site=%s kind=%s known=%q msg=%s model=%v choices=%v\n", v.Harness, v.Site, v.Kind, v.Known, v.Msg, v.Model, v.Choices)
 			}
-			continue
+			return
 		}
 		// de-duplicate by site+known: replay at most 2 models per site
 		perSite := map[string]int{}
@@ -445,6 +418,7 @@ func cmdCheck(args []string) int {
 			if perSite[key] == 1 {
 				confirmed++
 				vioLines = append(vioLines, fmt.Sprintf("VIOLATION property=%s replay=%s", *prop, path))
+				fmt.Printf("VIOLATION property=%s replay=%s\n", *prop, path)
 				fmt.Printf("  violated: harness=%s site=%s kind=%s msg=%s\n", v.Harness, v.Site, v.Kind, v.Msg)
 			}
 		}
@@ -476,6 +450,34 @@ func cmdCheck(args []string) int {
 			}
 		}
 	}
+	for _, h := range hs {
+		r, err := explore(ld, h, *tier, *workers, known, *prop, *verbose)
+		if err != nil {
+			fmt.Println("CHECK-ERROR", h.Func, err)
+			broken = true
+			continue
+		}
+		results = append(results, r)
+		fmt.Printf("harness %s: paths=%d (%v) decided=%d queries sat=%d unsat=%d unknown=%d solver=%.1fs wall=%.1fs candidates=%d\n",
+			h.Func, r.stats.Paths, r.stats.PathKinds, r.decided, r.queries.Sat, r.queries.Unsat, r.queries.Unknown, r.solverTime.Seconds(), r.wall.Seconds(), len(r.violations))
+		if len(r.engineErrs) > 0 {
+			broken = true
+			for _, e := range r.engineErrs {
+				fmt.Println("ENGINE-ERROR", h.Func, e)
+			}
+		}
+		if *verbose {
+			keys := make([]string, 0, len(r.notes))
+			for k := range r.notes {
+				keys = append(keys, k)
+			}
+			sort.Strings(keys)
+			for _, k := range keys {
+				fmt.Printf("  note x%d: %s\n", r.notes[k], k)
+			}
+		}
+		post(r)
+	}
 	for _, k := range known {
 		if k.Property != *prop {
 			continue
@@ -484,9 +486,7 @@ func cmdCheck(args []string) int {
 			fmt.Printf("KNOWN-FINDING: property=%s %s [%s]\n", *prop, k.What, k.ID)
 		}
 	}
-	for _, l := range vioLines {
-		fmt.Println(l)
-	}
+	_ = vioLines
 	sort.Strings(incomplete)
 	for _, s := range incomplete {
 		fmt.Println("INCOMPLETE", s)
